@@ -5,7 +5,10 @@ package c01
 
 import (
 	"os"
+	"sort"
 	"strconv"
+	"strings"
+	"sync"
 	"testing"
 	"time"
 
@@ -94,6 +97,157 @@ func spaces(thorough bool) []chanmc.Space {
 	return out
 }
 
+// baseFee is the fee rate both height-0 commitments are created with.
+const baseFee = 6000
+
+// feeLetters is the update_fee value alphabet, stated relative to the rates the
+// channel already knows: the rate committed at funding (a *revert* once another
+// rate is pending or committed), one rate above and one below it (on the types
+// with fee-bearing second-level transactions the HTLC of the scripts below is
+// non-dust at baseFee and at the lower rate and dust at the higher one).
+// Sequences over this alphabet contain every equality pattern between an
+// update_fee and the earlier ones: equal to the committed rate, equal to the
+// pending rate (x,x), back to a rate used before (x,y,x), all distinct.
+var feeLetters = []int64{baseFee, 7000, 5000}
+
+// feeSeqs returns every sequence of exactly n letters.
+func feeSeqs(n int) [][]int64 {
+	if n == 0 {
+		return [][]int64{nil}
+	}
+	var out [][]int64
+	for _, pre := range feeSeqs(n - 1) {
+		for _, l := range feeLetters {
+			out = append(out, append(append([]int64{}, pre...), l))
+		}
+	}
+	return out
+}
+
+// feeABA are the length-3 sequences x,y,x (y != x): the third update returns to
+// a rate used earlier that is not the immediately preceding one - the one
+// equality pattern that does not occur among the sequences of length <= 2.
+func feeABA() [][]int64 {
+	var out [][]int64
+	for _, fs := range feeSeqs(3) {
+		if fs[0] == fs[2] && fs[0] != fs[1] {
+			out = append(out, fs)
+		}
+	}
+	return out
+}
+
+// feeSpaces is the update_fee sequence family: sequences of fee updates over
+// feeLetters, sent by the opener, ALL interleavings with the commitment dance
+// (so every way of batching several update_fee under one commitment_signed,
+// every way of signing them one at a time, every delivery order), crossed with
+// channel type x opener x HTLC context (0 = none / 1 = one HTLC offered by the
+// opener, later failed / 2 = one offered by the non-opener, later settled; amount
+// 1 sat above the offerer's own dust threshold at baseFee). The oracles are the
+// ordinary C01 ones (chanmc): nothing here knows which sequences are special.
+//
+// Crossing rule (cells = type x opener; quick has 3 types = 6 cells, thorough 7 types = 14 cells):
+//
+//	context 0, every sequence of length 1 and 2:  every cell                      (both tiers)
+//	context 0, length 3:  quick: the 6 x,y,x sequences, one per cell; thorough: all 27, every cell
+//	context 1 and 2, length 2:  quick: the 4 sequences whose second update replaces/follows a
+//	    non-committed rate by a different one ((up,base) (down,base) (up,down) (down,up): with the
+//	    HTLC 1 sat above dust these move it across the threshold and back), one cell each, both
+//	    openers of the fee-bearing type first; thorough: all 9, every type, opener alternating with
+//	    type+context+sequence index
+//	context 1 and 2, length 3:  thorough only: the 6 x,y,x sequences, each once per context, rotated over the cells
+func feeSpaces(thorough bool, types []string) []chanmc.Space {
+	var out []chanmc.Space
+	mk := func(typ string, openerB bool, fees []int64, ctx int) {
+		op := 0
+		if openerB {
+			op = 1
+		}
+		p := chanmc.Params{Type: typ, OpenerB: openerB, FeePerKw: baseFee, Fees: fees}
+		th := chanmc.Thresholds(typ, baseFee, 200, 1300)
+		switch ctx {
+		case 1: // offered by the opener
+			p.Script = []chanmc.Intent{{By: op, Amt: sat(th[2*op]+1, 0), Fate: "fail"}}
+		case 2: // offered by the non-opener
+			p.Script = []chanmc.Intent{{By: 1 - op, Amt: sat(th[2*(1-op)]+1, 0), Fate: "settle"}}
+		}
+		out = append(out, chanmc.Space{Dev: -1, P: p})
+	}
+	ncells := 2 * len(types)
+	cellAt := func(c int) (string, bool) { c %= ncells; return types[c/2], c%2 == 1 }
+	for ci := 0; ci < ncells; ci++ {
+		typ, openerB := cellAt(ci)
+		for _, fs := range feeSeqs(1) {
+			mk(typ, openerB, fs, 0)
+		}
+		for _, fs := range feeSeqs(2) {
+			mk(typ, openerB, fs, 0)
+		}
+		if thorough {
+			for _, fs := range feeSeqs(3) {
+				mk(typ, openerB, fs, 0)
+			}
+		}
+	}
+	if !thorough {
+		for si, fs := range feeABA() {
+			typ, openerB := cellAt(si)
+			mk(typ, openerB, fs, 0)
+		}
+		// (sequence, context, cell): cells 0,1 = first type (tweakless: second-level fees depend on the rate)
+		for i, q := range [][]int64{{7000, baseFee}, {5000, baseFee}, {7000, 5000}, {5000, 7000}} {
+			typ, openerB := cellAt([]int{0, 1, 2, ncells - 1}[i])
+			mk(typ, openerB, q, 2-i%2)
+		}
+		return out
+	}
+	for ctx := 1; ctx <= 2; ctx++ {
+		for si, fs := range feeSeqs(2) {
+			for ti, typ := range types {
+				mk(typ, (ti+ctx+si)%2 == 1, fs, ctx)
+			}
+		}
+		for si, fs := range feeABA() {
+			typ, ob := cellAt(2*si + ctx)
+			mk(typ, ob, fs, ctx)
+		}
+	}
+	return out
+}
+
+// mergeAgg adds b's coverage to a (the exploration of the fee family runs in
+// its own lanes next to the main list, each lane with its own Agg).
+func mergeAgg(a, b *chanmc.Agg) {
+	a.States += b.States
+	a.Transitions += b.Transitions
+	a.Replays += b.Replays
+	a.ReplaySteps += b.ReplaySteps
+	a.Terminals += b.Terminals
+	if b.MaxDepth > a.MaxDepth {
+		a.MaxDepth = b.MaxDepth
+	}
+	a.Spaces += b.Spaces
+	a.Complete += b.Complete
+	a.Caps = append(a.Caps, b.Caps...)
+	a.PerSpace = append(a.PerSpace, b.PerSpace...)
+	if len(a.Samples) < 6 && len(b.Samples) > 0 {
+		a.Samples = append(a.Samples, b.Samples[0])
+	}
+	a.Stats.SigsVerified.Add(b.Stats.SigsVerified.Load())
+	a.Stats.CommitsChecked.Add(b.Stats.CommitsChecked.Load())
+	a.Stats.Reloads.Add(b.Stats.Reloads.Load())
+	a.Stats.Retransmissions.Add(b.Stats.Retransmissions.Load())
+	a.Stats.ConstraintNoops.Add(b.Stats.ConstraintNoops.Load())
+	a.Stats.MirrorChecks.Add(b.Stats.MirrorChecks.Load())
+	a.Stats.RevokesChecked.Add(b.Stats.RevokesChecked.Load())
+	a.Stats.CrashMidStep.Add(b.Stats.CrashMidStep.Load())
+	if b.Stats.MaxWrites.Load() > a.Stats.MaxWrites.Load() {
+		a.Stats.MaxWrites.Store(b.Stats.MaxWrites.Load())
+	}
+	a.Stats.SideWrites.Add(b.Stats.SideWrites.Load())
+	a.Stats.SideRefused.Add(b.Stats.SideRefused.Load())
+}
+
 func TestC01(t *testing.T) {
 	run := evid.Start("C01", "model_checking")
 	if rp := os.Getenv("VERIF_REPLAY"); rp != "" {
@@ -112,10 +266,113 @@ func TestC01(t *testing.T) {
 		}
 	}
 	sp := spaces(run.Thorough())
-	agg := chanmc.RunSpaces(run, sp, time.Now().Add(budget), 0)
+	ft := []string{"tweakless", "zerofee", "taprootfinal"}
+	if run.Thorough() {
+		ft = chanmc.AllTypes
+	}
+	fee := feeSpaces(run.Thorough(), ft)
+	// development aids: VERIF_C01_FAMILY=main|fee keeps one family, VERIF_C01_MATCH=<s> the spaces whose name contains s
+	switch os.Getenv("VERIF_C01_FAMILY") {
+	case "main":
+		fee = nil
+	case "fee":
+		sp = nil
+	}
+	if m := os.Getenv("VERIF_C01_MATCH"); m != "" {
+		filter := func(in []chanmc.Space) (keep []chanmc.Space) {
+			for _, s := range in {
+				if strings.Contains(s.P.Name(), m) {
+					keep = append(keep, s)
+				}
+			}
+			return keep
+		}
+		sp, fee = filter(sp), filter(fee)
+	}
+	// The fee family consists of many small spaces (11 .. 3k states), which a
+	// single explore.Run cannot spread over the cores; they run in feeLanes
+	// lanes of their own next to the main list (cheapest spaces first,
+	// round-robin), all under the same deadline.
+	const feeLanes, laneWorkers = 3, 2
+	deadline := time.Now().Add(budget)
+	sort.SliceStable(fee, func(i, j int) bool { // cheapest first: a deadline then cuts the largest spaces
+		wi, wj := len(fee[i].P.Script)*10+len(fee[i].P.Fees), len(fee[j].P.Script)*10+len(fee[j].P.Fees)
+		return wi < wj
+	})
+	lanes := make([][]chanmc.Space, feeLanes)
+	for i, s := range fee {
+		lanes[i%feeLanes] = append(lanes[i%feeLanes], s)
+	}
+	laneAgg := make([]*chanmc.Agg, feeLanes)
+	var wg sync.WaitGroup
+	for l := range lanes {
+		if len(lanes[l]) == 0 {
+			continue
+		}
+		wg.Add(1)
+		go func(l int) {
+			defer wg.Done()
+			laneAgg[l] = chanmc.RunSpaces(run, lanes[l], deadline, laneWorkers)
+		}(l)
+	}
+	agg := chanmc.RunSpaces(run, sp, deadline, 0)
+	wg.Wait()
+	var feeRecheck []any
+	feeAgg := &chanmc.Agg{}
+	for _, la := range laneAgg {
+		if la == nil {
+			continue
+		}
+		mergeAgg(feeAgg, la)
+		if la.Recheck != nil {
+			feeRecheck = append(feeRecheck, la.Recheck)
+		}
+	}
+	// Determinism re-check of the family's own shapes (the engine-level re-check of a
+	// lane takes the lane's first space, a one-fee space): re-explore the first
+	// completed no-HTLC space with two and with three fee updates (first two rates distinct) and require
+	// identical state and transition counts (a difference = hidden state outside
+	// the canonical key, e.g. a pending fee entry the key does not determine).
+	first := map[string]map[string]any{}
+	for _, ps := range feeAgg.PerSpace {
+		if name, ok := ps["space"].(string); ok && ps["exhaustive"] == true {
+			first[name] = ps
+		}
+	}
+	var again []chanmc.Space
+	for _, want := range []int{2, 3} {
+		for _, s := range fee {
+			if len(s.P.Script) == 0 && len(s.P.Fees) == want && s.P.Fees[0] != s.P.Fees[1] && first[s.P.Name()] != nil {
+				again = append(again, s)
+				break
+			}
+		}
+	}
+	if len(again) > 0 && time.Now().Before(deadline) {
+		second := chanmc.RunSpaces(run, again, deadline, laneWorkers*feeLanes)
+		for _, ps := range second.PerSpace {
+			name, _ := ps["space"].(string)
+			f := first[name]
+			if f == nil || ps["exhaustive"] != true {
+				continue
+			}
+			same := f["states"] == ps["states"] && f["transitions"] == ps["transitions"]
+			feeRecheck = append(feeRecheck, map[string]any{"space": name, "states_first": f["states"], "states_second": ps["states"],
+				"transitions_first": f["transitions"], "transitions_second": ps["transitions"], "identical": same})
+			if !same {
+				feeAgg.Caps = append(feeAgg.Caps, "nondeterminism_detected in "+name)
+			}
+		}
+	}
+	mainStates, mainSpaces := agg.States, agg.Spaces
+	mergeAgg(agg, feeAgg)
 	cov := agg.Coverage("state = canonical projection of both real LightningChannels + wires + explorer HTLC table; transition = one lnd API call sequence (AddHTLC/Settle/Fail/UpdateFee/SignNextCommitment or delivery of the head of a FIFO wire into Receive*); every transition runs the sig-verifies, msat-conservation, exact-balance, fee/dust/tx-output oracles on every commitment either side holds; terminal states run the mirror oracle; distinct_nontrivial = distinct canonical states")
+	cov["families"] = map[string]any{
+		"main":          map[string]any{"spaces": mainSpaces, "states": mainStates},
+		"fee_sequences": map[string]any{"spaces": feeAgg.Spaces, "spaces_completed": feeAgg.Complete, "states": feeAgg.States, "transitions": feeAgg.Transitions, "terminal_states": feeAgg.Terminals, "letters": feeLetters, "lanes": feeLanes, "determinism_rechecks": feeRecheck},
+	}
 	run.Assumptions = append(run.Assumptions,
-		"scripts of at most 3 HTLCs and one fee update; amounts from the dust-straddling alphabet; custom (aux-leaf) channels outside the alphabet",
+		"scripts of at most 3 HTLCs and one fee update; fee-sequence family: at most 3 update_fee over {committed rate, one above, one below} with at most one HTLC; amounts from the dust-straddling alphabet; custom (aux-leaf) channels outside the alphabet",
 		"canonical state drops signatures/nonces/txids (functions of the kept fields); the signature oracle runs on transitions")
 	if code := run.Finish(cov); code != 0 {
 		os.Exit(code)
